@@ -991,8 +991,22 @@ def unroll_circuit_op_greedy_frontier(
                 )
             if tags_to_check is None or set(tags_to_check).intersection(op.tags):
                 unrolled_circuit.clear_operations_touching(op.qubits, [idx])
+                mapped_circuit = op_untagged.mapped_circuit()
+                if protocols.measurement_key_objs(mapped_circuit) or protocols.control_keys(
+                    mapped_circuit
+                ):
+                    # The frontier tracks qubits only. Operations that write or read measurement
+                    # keys are ordered with respect to operations on other qubits as well, so
+                    # they get moments of their own, between this moment and the next one.
+                    unrolled_circuit[idx + 1 : idx + 1] = mapped_circuit.moments
+                    for q in frontier:
+                        if frontier[q] > idx:
+                            frontier[q] += len(mapped_circuit)
+                    for q in op.qubits:
+                        frontier[q] = idx + 1 + len(mapped_circuit)
+                    continue
                 frontier = unrolled_circuit.insert_at_frontier(
-                    op_untagged.mapped_circuit().all_operations(), idx, frontier
+                    mapped_circuit.all_operations(), idx, frontier
                 )
             elif deep:
                 unrolled_circuit.batch_replace([(idx, op, op_untagged.with_tags(*op.tags))])
